@@ -23,15 +23,18 @@
    [null_guard] are now full, resp. guarded by [root_guard] (about the two
    document roots only).
 
-   What is NOT proved here (checked only by the correspondence run and the
-   judge, see docs/C06.md "missing"): the non-SAME <-> differ equivalence for
-   configurations that mix modes per path ([rules]) or configure identity
-   keys ([keys]); truthfulness outside positional comparison. *)
+   Arbitrary resolved configurations ([rules] choosing modes per list, [keys]
+   choosing identity keys per list / record) are covered by the `_cfg`
+   theorems at the end of this file (equivalence [equiv_c], guard [kguard_c] =
+   finding F4, Proofs/DiffIffCfg.v); what holds of an entry's path and values
+   in the synchronised modes is stated by the `_sync` theorems
+   (Proofs/DiffTruth.v); [data_eq] is an equivalence relation and the greedy
+   strike-out [bag_eqb] decides multiset equality (Proofs/DiffTrans.v). *)
 (* obligations tying the models' literal tables to the tables regenerated from the source *)
 From YP Require Import GenTables.
 From Coq Require Import List Ascii String ZArith NArith Bool Arith Permutation.
 From YP Require Import Outcome PyStr PyVal Doc Diff C06Spec DiffBase DiffPos DiffTotal DiffSync DiffEq
-  DiffKeys DiffCover DiffAcct DiffSym DiffKSync DiffIff DiffIffKey.
+  DiffKeys DiffCover DiffAcct DiffSym DiffKSync DiffIff DiffIffKey DiffIffCfg.
 Import ListNotations.
 Open Scope string_scope.
 
@@ -512,3 +515,111 @@ Theorem C06_entry_path_resolves_refuted :
   /\ pb_safe Dot L [RKey (PStr "*")] = false
   /\ C06_requery L "*" = Some [2; 4]%N.
 Proof. vm_compute. repeat split; reflexivity. Qed.
+
+(* ==================================================================== *)
+(* ARBITRARY resolved configurations: the [rules] table (modes per list) and
+   the [keys] table (identity keys per list / per record) are inputs of the
+   model and universally quantified here.  [equiv_c cfg] reads every pair of
+   sequences in the mode the configuration's own lookup selects at the
+   coordinates of the right-hand list (position / whole-element position /
+   value / identity key, the key in force per right-hand record) and is
+   otherwise data equality; [kguard_c cfg] is finding F4 and the ONLY guard:
+   at every pair of sequences read by identity key, each right-hand record
+   holds the list's key and its own key in force, and identities pair the
+   records one to one (identity values may be scalars, sequences or
+   mappings: they are compared as data); it is checked along the pairing the
+   comparison makes (value-synchronised lists along the greedy strike-out,
+   not over all pairs of equal elements). *)
+Theorem C06_nonsame_iff_differ_cfg_partial :
+  forall path_eq cfg L R es,
+    wf_doc L = true -> wf_doc R = true ->
+    kguard_c cfg L R None PNone = true ->
+    compare_to path_eq cfg L R = Ok es ->
+    shows_difference es = negb (equiv_c cfg L R None PNone).
+Proof. exact compare_to_iff_c. Qed.
+Print Assumptions C06_nonsame_iff_differ_cfg_partial.
+
+(* no guard at all when the configuration never selects --aoh key | deep *)
+Theorem C06_nonsame_iff_differ_cfg :
+  forall path_eq cfg L R es,
+    nokey_cfg cfg -> wf_doc L = true -> wf_doc R = true ->
+    compare_to path_eq cfg L R = Ok es ->
+    shows_difference es = negb (equiv_c cfg L R None PNone).
+Proof. exact nonsame_iff_differ_nokey. Qed.
+Print Assumptions C06_nonsame_iff_differ_cfg.
+
+Theorem C06_reflexive_cfg :
+  forall path_eq cfg L es,
+    nokey_cfg cfg -> wf_doc L = true ->
+    compare_to path_eq cfg L L = Ok es -> shows_difference es = false.
+Proof. exact reflexive_nokey. Qed.
+Print Assumptions C06_reflexive_cfg.
+
+Theorem C06_reflexive_cfg_partial :
+  forall path_eq cfg L es,
+    wf_doc L = true -> kguard_c cfg L L None PNone = true ->
+    compare_to path_eq cfg L L = Ok es -> shows_difference es = false.
+Proof. exact reflexive_c. Qed.
+Print Assumptions C06_reflexive_cfg_partial.
+
+Theorem C06_equal_no_difference_cfg_partial :
+  forall path_eq cfg L R es,
+    wf_doc L = true -> wf_doc R = true -> kguard_c cfg L R None PNone = true ->
+    data_eq L R = true ->
+    compare_to path_eq cfg L R = Ok es -> shows_difference es = false.
+Proof. exact equal_no_difference_c. Qed.
+Print Assumptions C06_equal_no_difference_cfg_partial.
+
+(* equal documents are equivalent under every configuration (under the guard) *)
+Theorem C06_equal_implies_equiv_cfg :
+  forall cfg a b par pref,
+    wf_doc a = true -> wf_doc b = true -> kguard_c cfg a b par pref = true ->
+    data_eq a b = true -> equiv_c cfg a b par pref = true.
+Proof. exact data_eq_equiv_c. Qed.
+Print Assumptions C06_equal_implies_equiv_cfg.
+
+(* the configured equivalence IS the uniform one when the configuration is uniform *)
+Theorem C06_equiv_cfg_uniform :
+  forall cfg am hm, uniform cfg am hm -> unkeyed hm = true ->
+    forall a b par pref, equiv_c cfg a b par pref = equiv am hm a b.
+Proof. exact equiv_c_uniform. Qed.
+Print Assumptions C06_equiv_cfg_uniform.
+
+Theorem C06_guard_cfg_nokey :
+  forall cfg, nokey_cfg cfg -> forall a b par pref, kguard_c cfg a b par pref = true.
+Proof. exact kguard_c_nokey. Qed.
+Print Assumptions C06_guard_cfg_nokey.
+
+(* F4 under a [keys] table: the configured identity key is missing *)
+Theorem C06_reflexive_cfg_refuted :
+  exists cfg d es, c_keys cfg <> [] /\ wf_doc d = true /\ kguard_c cfg d d None PNone = false /\
+    compare_to path_eq_real cfg d d = Ok es /\ shows_difference es = true.
+Proof. exact reflexive_cfg_refuted_witness. Qed.
+Print Assumptions C06_reflexive_cfg_refuted.
+
+(* non-vacuity: a NON-uniform configuration ([rules] /x = value): x reordered
+   shows no difference, y reordered does *)
+Example C06_cfg_rules_example :
+  let L := xy_doc 0 [1; 2; 3]%Z [1; 2; 3]%Z in
+  let R := xy_doc 100 [3; 1; 2]%Z [1; 2; 3]%Z in
+  let R' := xy_doc 100 [1; 2; 3]%Z [3; 1; 2]%Z in
+  (wf_doc L = true /\ wf_doc R = true /\ wf_doc R' = true) /\
+  (~ uniform (rules_cfg R) ArrPosition AohPosition /\ ~ uniform (rules_cfg R) ArrValue AohPosition) /\
+  kguard_c (rules_cfg R) L R None PNone = true /\
+  equiv_c (rules_cfg R) L R None PNone = true /\ data_eq L R = false /\
+  (exists es, compare_to path_eq_real (rules_cfg R) L R = Ok es /\ shows_difference es = false) /\
+  equiv_c (rules_cfg R') L R' None PNone = false /\
+  (exists es, compare_to path_eq_real (rules_cfg R') L R' = Ok es /\ shows_difference es = true).
+Proof. exact rules_example. Qed.
+
+(* non-vacuity: --aoh key with [keys] /r = name on records whose first key's
+   values coincide: the guard holds for the configured key, not for `id` *)
+Example C06_cfg_keys_example :
+  let L := recs_doc 0 [(1%Z, "a"); (1%Z, "bb")] in
+  let R := recs_doc 1000 [(1%Z, "bb"); (1%Z, "a")] in
+  wf_doc L = true /\ wf_doc R = true /\ c_keys (keys_cfg "name" R) <> [] /\
+  kguard_c (keys_cfg "name" R) L R None PNone = true /\
+  equiv_c (keys_cfg "name" R) L R None PNone = true /\ data_eq L R = false /\
+  (exists es, compare_to path_eq_real (keys_cfg "name" R) L R = Ok es /\ shows_difference es = false) /\
+  kguard_c (keys_cfg "id" R) L R None PNone = false.
+Proof. exact keys_example. Qed.
